@@ -81,10 +81,10 @@ def coroutines(named):
     return out
 
 
-def dm_constants():
+def dm_constants(names=None):
     from explorerscript.ssb_converting.ssb_data_types import DungeonModeConstants
 
-    return DungeonModeConstants(*DM_NAMES)
+    return DungeonModeConstants(*(names or DM_NAMES))
 
 
 def compile_exps(text, path="/nonexistent/verif/main.exps", lookup=None, compiler=None):
@@ -103,11 +103,11 @@ def compile_ssbs(text):
     return c
 
 
-def decompile_exps(routine_infos, routine_ops, named, deep=True):
+def decompile_exps(routine_infos, routine_ops, named, deep=True, dm=None):
     from explorerscript.ssb_converting.ssb_decompiler import ExplorerScriptSsbDecompiler
 
     ops = copy.deepcopy(routine_ops) if deep else routine_ops
-    d = ExplorerScriptSsbDecompiler(routine_infos, ops, coroutines(named), PPL, dm_constants())
+    d = ExplorerScriptSsbDecompiler(routine_infos, ops, coroutines(named), PPL, dm_constants(dm))
     return d.convert()
 
 
